@@ -34,7 +34,13 @@ def enc_cases(tier):
             ("hl3-norecon", {"hierarchical_levels": 3, "recon_enabled": 0}), ("hl3-10bit", {"hierarchical_levels": 3, "encoder_bit_depth": 10}),
             ("hl2-lp4", {"hierarchical_levels": 2, "logical_processors": 4, "w": 128, "h": 128}),
             # the process / buffer counts of load_default_buffer_configuration_settings have three classes: 1 core, 2-3 cores, >= 4 cores
-            ("hl2-lp2", {"hierarchical_levels": 2, "logical_processors": 2}), ("hl2-lp3", {"hierarchical_levels": 2, "logical_processors": 3})]
+            ("hl2-lp2", {"hierarchical_levels": 2, "logical_processors": 2}), ("hl2-lp3", {"hierarchical_levels": 2, "logical_processors": 3}),
+            # buffers that exist only with particular tools: palette / intrabc tokens (screen content), per-tile contexts, superres, film grain
+            ("hl2-scm1-palette0", {"hierarchical_levels": 2, "screen_content_mode": 1, "palette_level": 0, "content": "screen"}),
+            ("hl2-scm1", {"hierarchical_levels": 2, "screen_content_mode": 1, "content": "screen"}),
+            ("hl2-tiles", {"hierarchical_levels": 2, "tile_rows": 1, "tile_columns": 1, "w": 128, "h": 128}),
+            ("hl2-superres-grain", {"hierarchical_levels": 2, "superres_mode": 1, "superres_denom": 12, "superres_kf_denom": 12, "film_grain_denoise_strength": 10})]
+TOOL_CFGS = ("hl2-lp2", "hl2-lp3", "hl2-scm1-palette0", "hl2-scm1", "hl2-tiles", "hl2-superres-grain")
     if tier == "quick":
         cfgs = cfgs[:3] + cfgs[5:]
     out = []
@@ -49,7 +55,7 @@ def enc_cases(tier):
             for pat in ("n", "d"):
                 if tier == "quick" and k > 4 and k % 2 and pat == "d":
                     continue
-                if tier == "quick" and cname in ("hl2-lp2", "hl2-lp3") and k not in (0, 2):
+                if tier == "quick" and cname in TOOL_CFGS and k not in (0, 2):
                     continue
                 out.append(("%s/teardown-after-%d-pictures,%s" % (cname, k, "drained" if pat == "d" else "nothing-retrieved"),
                             dict(base, n=n, teardown_at=k, pat=pat)))
